@@ -62,8 +62,57 @@ def rhow(rng):
     return rng.choice(['dot', 'dot', 'matmul', 'mul'])
 
 
+VARIANTS = ['N'] + [''.join(t) for n in (1, 2, 3) for t in itertools.product('TH', repeat=n)]
+
+
 def rvariant(rng):
-    return rng.choice(['N', 'N', 'T', 'T', 'H', 'TT', 'TH'])
+    """a chain of .T/.H of length 0..3 (all 15 chains occur)"""
+    r = rng.random()
+    if r < 0.25:
+        return 'N'
+    if r < 0.45:
+        return rng.choice(['T', 'H'])
+    return rng.choice(VARIANTS[3:])
+
+
+XDTYPES = ['f8', 'f8', 'i8', 'i4', '?', 'f4']      # argument dtypes: float64, int64, int32, bool, float32
+DENS = [1, 2, 2, 4]                                # operand entries are k/den (dyadic: exact in f8 and f4)
+
+
+def set_xdtype(rng, x, dtype=None):
+    x['dtype'] = dtype or rng.choice(XDTYPES)
+    if x['dtype'] == '?':
+        x['data'] = [abs(v) % 2 for v in x['data']]
+    return x
+
+
+def diversify(rng, c):
+    """Non-integer (dyadic) operand entries and every real argument dtype.  The harness-side data stay
+    integers: the driver divides the operand data by den and multiplies the result by den^k
+    (k = degree of the result in the operands), both exact, so oracle and Coq model see integers
+    while the implementation sees fractional operands and int/bool/f4/f8 arguments."""
+    fam = c['fam']
+    den = rng.choice(DENS)
+    if fam in ('tprod', 'kronop', 'applykron', 'blockdiag'):
+        ops = [o for o in c['ops'] if o is not None]
+        k = len(ops) if fam != 'blockdiag' else 1
+    elif fam == 'modek':
+        ops, k = [c['B']], 1
+    elif fam == 'block':
+        ops, k = [o for row in c['grid'] for o in row if o is not None], 1
+    elif fam == 'subspace':
+        ops, k = c['B'], 1
+    elif fam == 'diag':
+        ops, k = [c], 1
+    elif fam in ('rowslice', 'rowsubset'):
+        ops, k = [c['A']], 1
+    else:
+        ops, k = [], 0
+    for o in ops:
+        o['den'] = den
+    c['outscale'] = den ** k
+    set_xdtype(rng, c['x'])
+    return c
 
 
 def kind_class(specs):
@@ -79,8 +128,9 @@ def gen_cases(ctx):
     dist = {}
 
     def add(c):
-        cases.append(c)
+        cases.append(diversify(rng, c))
         dist[c['fam']] = dist.get(c['fam'], 0) + 1
+        dist['xdtype:' + c['x']['dtype']] = dist.get('xdtype:' + c['x']['dtype'], 0) + 1
 
     def factor_shapes(nf, square):
         big = 3 if nf >= 4 else (4 if nf == 3 else 5)
@@ -300,6 +350,44 @@ def check_property_on_impl(c, res):
         return ('value', 'entry %s is %d, the dense definition gives %d' % (tuple(int(t) for t in w), got[tuple(w)], want[tuple(w)]))
     if res.get('mutated'):
         return ('operand-modified', '%s altered its operands (%s) bitwise' % (c['fam'], ', '.join(res['mutated'][:4])))
+    bad = dtype_rule(c, res)
+    if bad:
+        return bad
+    return None
+
+
+def operand_dtypes(c):
+    fam = c['fam']
+    if fam in ('tprod', 'kronop', 'applykron', 'blockdiag'):
+        ops = [o for o in c['ops'] if o is not None]
+    elif fam == 'modek':
+        ops = [c['B']]
+    elif fam == 'block':
+        ops = [o for row in c['grid'] for o in row if o is not None]
+    elif fam == 'subspace':
+        ops = c['B'] + c['P']
+    elif fam == 'diag':
+        ops = [c]
+    else:
+        return ['f8']
+    return [o.get('dtype', 'f8') for o in ops] or ['f8']
+
+
+def dtype_rule(c, res):
+    """The explicit matrix (float dtype of the operands) times the argument has dtype
+    np.result_type(operands, argument) -- float64 for integer arguments of a float64 operator.  The
+    implementation may return more precision, never less, and never an integer array (IdentityOperator and
+    apply_tprod with only None placeholders return their argument without arithmetic: exempt)."""
+    if c['fam'] == 'identity' or (c['fam'] == 'tprod' and all(o is None for o in c['ops'])):
+        return None      # the argument is returned (re-ordered) without any arithmetic
+    want = np.result_type(*([np.dtype(d) for d in operand_dtypes(c)] + [np.dtype({'?': 'bool'}.get(c['x']['dtype'], c['x']['dtype']))]))
+    got = np.dtype(res['dtype'])
+    if got.kind != 'f':
+        return ('result-dtype', 'result has dtype %s for operands %s and a %s argument; the dense definition gives %s' % (
+            got, sorted(set(operand_dtypes(c))), c['x']['dtype'], want))
+    if got.itemsize < want.itemsize:
+        return ('result-precision', 'result has dtype %s for operands %s and a %s argument; the dense definition gives %s' % (
+            got, sorted(set(operand_dtypes(c))), c['x']['dtype'], want))
     return None
 
 
@@ -319,7 +407,8 @@ def case_class(c):
 def signature(c, slug):
     v = c.get('variant', '')
     vv = ('H' if 'H' in v else 'T' if 'T' in v else 'N') if v else '-'
-    return 'impl:%s:%s.%s:%s' % (slug, c['fam'], vv, case_class(c))
+    xd = c['x'].get('dtype', 'f8')
+    return 'impl:%s:%s.%s:%s:x=%s' % (slug, c['fam'], vv, case_class(c), xd)
 
 
 # ---------------------------------------------------------------------------
@@ -466,7 +555,7 @@ def gen_solver_cases(ctx):
         legal = [{}, own] + ([{'symmetric': True}] if cls == 'spd' else [])
         builds = [own] if rng.random() < 0.3 else [rng.choice(legal) for _ in range(rng.randint(2, 3))]
         cases.append({'fam': 'solver', 'cls': '%s:%s:x%d' % (cls, B['kind'], len(builds)), 'mats': [B], 'B': 0,
-                      'builds': builds, 'x': rx(rng, n), 'how': rhow(rng)})
+                      'builds': builds, 'x': set_xdtype(rng, rx(rng, n)), 'how': rhow(rng)})
     for i in range(54 * mult):
         nm = rng.randint(1, 2)
         mats = [dd_matrix(rng, rng.randint(1, 4), rng.random() < 0.4, skind()) for _ in range(nm)]
@@ -478,7 +567,7 @@ def gen_solver_cases(ctx):
         shared = len(set(idx)) < len(idx)
         cases.append({'fam': 'kronsolver', 'cls': '%s:%s' % ('shared' if shared else 'distinct',
                       '+'.join(sorted({mats[k]['kind'] for k in idx}))), 'mats': mats, 'idx': idx,
-                      'x': rx(rng, N), 'how': rhow(rng)})
+                      'x': set_xdtype(rng, rx(rng, N)), 'how': rhow(rng)})
     for i in range(42 * mult):
         dim = 1 + i % 3
         npairs = rng.randint(1, dim)
@@ -507,7 +596,7 @@ def gen_solver_cases(ctx):
         shared = len({tuple(p) for p in KM}) < dim or any(k == m for k, m in KM)
         cases.append({'fam': 'fastdiag', 'cls': 'dim%d:%s:%s' % (dim, 'shared' if shared else 'distinct',
                       '+'.join(sorted({mats[k]['kind'] for k, _ in KM}))), 'mats': mats, 'KM': KM,
-                      'x': rx(rng, N), 'how': rhow(rng)})
+                      'x': set_xdtype(rng, rx(rng, N)), 'how': rhow(rng)})
     return cases
 
 
@@ -566,6 +655,9 @@ def check_solver(c, res):
     nc = xcols(c['x'])
     worst = 0.0
     for o in res['outs']:
+        if o.get('dtype') != 'float64':
+            return ('result-dtype', '%s (%s): result has dtype %s for a float64 matrix and a %s right-hand side' % (
+                c['fam'], o['stage'], o.get('dtype'), c['x']['dtype']), None)
         if o['shape'] != xs or o['opshape'] != [N, N]:
             return ('shape', '%s: result shape %s / operator shape %s for a %dx%d matrix and right-hand side %s' % (
                 o['stage'], o['shape'], o['opshape'], N, N, xs), None)
@@ -694,13 +786,13 @@ def run(ctx):
         if ratio is not None:
             worst = max(worst, ratio)
         if slug:
-            ctx.report('impl:%s:%s:%s' % (slug, c['fam'], c['cls']), text, {'case': c, 'impl': r,
+            ctx.report('impl:%s:%s:%s:x=%s' % (slug, c['fam'], c['cls'], c['x'].get('dtype', 'f8')), text, {'case': c, 'impl': r,
                        'how': 'harness/impl/c16_driver.py run_case(case)'})
     ctx.cov['solver_cases'] = len(scases)
     ctx.cov['solver_distribution'] = sdist
     ctx.cov['rounding_bound'] = 'see solver_tol in harness/props/c16.py (8 n^3 2^(n-1) u ||A|| ||y|| per factorisation, times conditioning)'
     ctx.cov['largest_residual_over_bound'] = worst
-    ctx.cov['rule'] = ('operator cases: random integer operands (|entry|<=3), 1..4 Kronecker factors with independent shapes and '
+    ctx.cov['rule'] = ('operator cases: random dyadic operands k/den (|k|<=3, den in {1,2,4}; harness/Coq side scaled to integers), argument dtypes float64/int64/int32/bool/float32 in every family incl. the solver factories (value from the dense definition of the float operator, result dtype never integer and never less precise than np.result_type), .T/.H chains of length 0..3; 1..4 Kronecker factors with independent shapes and '
                        'storage kinds (ndarray C/F/transposed view, csr, csc, aslinearoperator, plain LinearOperator), f8/f4, x as vector/(n,1)/matrix '
                        '(C/F order), variants N/T/H/TT/TH, dot/@/*; every operand is compared bitwise with its snapshot after the operation; '
                        'solver factories: dense C/F/transposed-view and sparse inputs, the same array object handed over several times '
